@@ -224,6 +224,43 @@ Definition usage_lines (p : params) (width : nat) (args : list arg) : list str :
 (** every line was ended by std::endl *)
 Definition unlines (ls : list str) : str := flat_map (fun l => l ++ [NL]) ls.
 
+(** usage texts (IUsageText): Handler::UsagePos and the text print() writes *)
+Inductive upos := UUnused | UBefore | UAfter.
+Definition utext := option (upos * str).
+
+Definition upos_eqb (a b : upos) : bool :=
+  match a, b with
+  | UUnused, UUnused | UBefore, UBefore | UAfter, UAfter => true
+  | _, _ => false
+  end.
+
+(** the checks of handleStartFlags on the two usage text arguments *)
+Definition check_texts (t1 t2 : utext) : res unit :=
+  match t1, t2 with
+  | None, Some _ => Err EInvalidArgument
+  | Some (p1, _), Some (p2, _) =>
+      if upos_eqb p1 p2 then Err EInvalidArgument
+      else if upos_eqb p1 UAfter && upos_eqb p2 UBefore then Err EInvalidArgument
+      else Ok tt
+  | _, _ => Ok tt
+  end.
+
+(** os << txt << endl << endl *)
+Definition text_lines (s : str) : list str := split NL s ++ [[]].
+
+Definition text_before (t1 : utext) : list str :=
+  match t1 with Some (UBefore, s) => text_lines s | _ => [] end.
+
+Definition text_after (t1 t2 : utext) : list str :=
+  match t1 with
+  | Some (UAfter, s) => text_lines s
+  | _ => match t2 with Some (UAfter, s) => text_lines s | _ => [] end
+  end.
+
+(** Handler::usage with usage texts *)
+Definition usage_lines_txt (t1 t2 : utext) (p : params) (width : nat) (args : list arg) : list str :=
+  text_before t1 ++ S_USAGE :: print p width args ++ [] :: text_after t1 t2.
+
 (* ------------------------------------------------------------------ *)
 (** * help for one argument *)
 
@@ -363,7 +400,7 @@ Record hstate := mkh { hp : params; hout : list str; herr : list str; hprinted :
     the time the argument was created).  "help-short" / "help-long" are
     TypedArgValue objects that check the original value: the second of them
     throws std::runtime_error. *)
-Definition eval_cmd_gen (vh vd : bool) (f : N) (width : nat) (args : list arg) (s : hstate) (c : cmd)
+Definition eval_cmd_gen (t1 t2 : utext) (vh vd : bool) (f : N) (width : nat) (args : list arg) (s : hstate) (c : cmd)
   : res hstate :=
   let p := hp s in
   match c with
@@ -392,7 +429,7 @@ Definition eval_cmd_gen (vh vd : bool) (f : N) (width : nat) (args : list arg) (
   | CmdHelp =>
       if (has f hfHelpShort || has f hfHelpLong) && has f hfUsageCont then
         if print_fails p args then Err ERuntime
-        else Ok (mkh p (hout s ++ usage_lines p width args) (herr s) true)
+        else Ok (mkh p (hout s ++ usage_lines_txt t1 t2 p width args) (herr s) true)
       else Err EOther
   | CmdHelpArg k =>
       if has f hfHelpArg && has f hfUsageCont then
@@ -406,13 +443,16 @@ Definition eval_cmd_gen (vh vd : bool) (f : N) (width : nat) (args : list arg) (
 
 (** after the repair (fix: create the flag arguments before the constructor
     flags switch the display on): the arguments always switch the display on *)
-Definition eval_cmd := eval_cmd_gen true true.
+Definition eval_cmd := eval_cmd_gen None None true true.
+
+(** the same with usage texts given to the constructor *)
+Definition eval_cmd_txt (t1 t2 : utext) := eval_cmd_gen t1 t2 true true.
 
 (** the pinned code: hfUsageHidden (hfUsageDeprecated) sets the variable
     before "print-hidden" ("print-deprecated") is created, the argument then
     switches the display off again *)
 Definition eval_cmd_pinned (f : N) :=
-  eval_cmd_gen (negb (has f hfUsageHidden)) (negb (has f hfUsageDeprecated)) f.
+  eval_cmd_gen None None (negb (has f hfUsageHidden)) (negb (has f hfUsageDeprecated)) f.
 
 Section Eval.
 Variable step : N -> nat -> list arg -> hstate -> cmd -> res hstate.
@@ -437,6 +477,13 @@ End Eval.
 Definition eval_cmds := eval_cmds_with eval_cmd.
 Definition eval_case := eval_case_with eval_cmd.
 Definition eval_case_pinned := eval_case_with eval_cmd_pinned.
+
+(** Handler( os, err, flags, txt1, txt2): the constructor refuses some
+    combinations of usage texts *)
+Definition eval_case_txt (t1 t2 : utext) (f : N) (width : nat) (user : list arg) (cs : list cmd)
+  : res hstate :=
+  do _ <- check_texts t1 t2;
+  eval_case_with (eval_cmd_txt t1 t2) f width user cs.
 
 (* ------------------------------------------------------------------ *)
 (** * the layout-insensitive reading of a usage text (the property observable)
